@@ -427,6 +427,7 @@ type SExpr struct {
 	Name string // ident name, operator, field, literal text
 	Args []*SExpr
 	Vars []SParam // quantifier vars
+	Trig []*SExpr // quantifier triggers
 }
 
 func (e *SExpr) String() string {
@@ -491,7 +492,7 @@ func lexSpec(s string) ([]tok, error) {
 			ts = append(ts, tok{"str", s[i+1 : j]})
 			i = j + 1
 		default:
-			ops := []string{"<==>", "==>", "::", "&&", "||", "==", "!=", "<=", ">=", "<<", ">>", "&^", "+", "-", "*", "/", "%", "&", "|", "^", "<", ">", "!", "(", ")", "[", "]", ".", ",", ":", "#"}
+			ops := []string{"<==>", "==>", "::", "&&", "||", "==", "!=", "<=", ">=", "<<", ">>", "&^", "+", "-", "*", "/", "%", "&", "|", "^", "<", ">", "!", "(", ")", "[", "]", "{", "}", ".", ",", ":", "#"}
 			found := false
 			for _, o := range ops {
 				if strings.HasPrefix(s[i:], o) {
@@ -569,11 +570,26 @@ func (p *sparser) expr() (*SExpr, error) {
 		if err := p.expect("::"); err != nil {
 			return nil, err
 		}
+		var trig []*SExpr
+		if p.isOp("{") {
+			p.next()
+			for !p.isOp("}") {
+				e, err := p.postfix()
+				if err != nil {
+					return nil, err
+				}
+				trig = append(trig, e)
+				if p.isOp(",") {
+					p.next()
+				}
+			}
+			p.next()
+		}
 		body, err := p.expr()
 		if err != nil {
 			return nil, err
 		}
-		return &SExpr{Op: t.s, Vars: vars, Args: []*SExpr{body}}, nil
+		return &SExpr{Op: t.s, Vars: vars, Args: []*SExpr{body}, Trig: trig}, nil
 	}
 	return p.iff()
 }
